@@ -29,6 +29,7 @@ THEOREMS = [
     "c19_repeated_id_overwrites",
     "c19_managers_independent",
     "c19_no_silent_removal",
+    "c19_envelope_class_irrelevant",
 ]
 RULE = (
     "operation histories over {tick, create, get, update activity, delete, cleanup(max_age), list+mutate, clear, "
@@ -47,7 +48,7 @@ TRUSTED = [
 ASSUMPTIONS = [
     "time.time() does not advance between the reads made inside one operation (the patched clock only moves between operations)",
     "what is recorded as client info when initialize carries no clientInfo is not fixed by the property (masked on both sides)",
-    "a REQUEST dispatched with a live session id is activity of that session whatever its outcome (result, unknown method, failing or nonsensical handler, initialize): the oracle demands last-activity = now ('expiry removes exactly the sessions idle for longer than the limit' — a session that has just been used is not idle); for notifications and method-less messages with a session id the property is silent: the old or the new stamp are both accepted (the model, like the code, refreshes for every message that has a method)",
+    "a message dispatched with a live session id — request or notification, unified or typed envelope, whatever its outcome (result, unknown method, failing or nonsensical handler, initialize) — is activity of that session: the oracle demands last-activity = now ('expiry removes exactly the sessions idle for longer than the limit' — a session whose client has just been heard from is not idle); only for a message WITHOUT a method both stamps are accepted",
     "cleanup_expired() without argument is compared with cleanup_expired(d), d being the default read from the signature at run time; a non-numeric default is not compared; fractional limits are checked against the reference dict only (the Lean model is integer-valued)",
     "initialize is driven with requested versions of every kind (supported, unsupported, malformed, empty, non-string, absent); WHICH version is answered is C04's subject — the oracle takes the answered version from the response (result.protocolVersion) and demands that the session records exactly that; the model is fed the observed answer policy (requested -> answered) as its `answer` function",
 ]
@@ -121,7 +122,9 @@ def seeded(rng, maxlen):
 
     for _ in range(n):
         r = rng.random()
-        if r < 0.16:
+        if r < 0.03:
+            ops.append(["S", rng.choice([0, 1, 1, 2, 42])])  # the application re-seeds the process-wide generator
+        elif r < 0.16:
             ops.append(["T", rng.choice([0, 1, 1, 1, 2, horizon, horizon + 1, max(horizon - 1, 0), 3599, 3600, 3601, 7200, 86400, 86400 * 400, -1, -3600])])
         elif r < 0.30:
             op = ["C", rng.choice([{"name": "c%d" % issued, "version": "1.0"}, {}, rand_json(rng), rng.choice(FALSY_AND_HOSTILE)]),
@@ -161,7 +164,10 @@ def seeded(rng, maxlen):
             ops.append(["N"])
         else:
             m = rng.choice(R_METHODS)
-            ops.append(["R", rng.choice([None, ref(), ref(), ref()]), m[0], m[1]])
+            op = ["R", rng.choice([None, ref(), ref(), ref()]), m[0], m[1]]
+            if rng.random() < 0.5:
+                op.append(rng.choice(["typed", "typed", "parse"]))
+            ops.append(op)
     case = {"ops": ops}
     if rng.random() < 0.12:
         # our own id supply, repeats included (a subclass overriding generate_session_id)
@@ -177,7 +183,7 @@ def _same(a, b):
     return repr(a) == repr(b) or canon(a) == canon(b)
 
 
-KEY_OF = {"B": "create", "C": "create", "G": "lookup", "U": "update-activity", "D": "delete", "X": "expiry", "L": "listing-copy",
+KEY_OF = {"S": "tick", "B": "create", "C": "create", "G": "lookup", "U": "update-activity", "D": "delete", "X": "expiry", "L": "listing-copy",
           "K": "clear", "N": "count", "I": "initialize", "R": "activity-on-dispatch", "T": "tick"}
 
 
@@ -251,10 +257,11 @@ def reference_check(case, obs):
             else:
                 return None  # an unsuccessful initialize is outside this property (C08)
         elif code == "R":
-            # a REQUEST dispatched with a session id is activity of that session whatever its outcome (result, unknown
-            # method, failing handler): "expiry removes exactly the sessions idle for longer than the limit".  For
-            # notifications and method-less messages the property is silent: old or new stamp are both accepted.
-            if op[3] is not None and isinstance(op[2], str) and op[2] != "":
+            # a message dispatched with a live session id — request or notification, through the unified or a typed envelope,
+            # whatever its outcome — is activity of that session: "expiry removes exactly the sessions idle for longer than
+            # the limit", and a session whose client has just been heard from is not idle.  Only for a message WITHOUT a
+            # method (a response-shaped object, nothing a client does on a session) both stamps are accepted.
+            if isinstance(op[2], str) and op[2] != "":
                 must_touch = op[1]
             else:
                 lenient_last = op[1]
@@ -326,6 +333,21 @@ class Histories(Suite):
             for me, mid in [("ping", 1), ("nosuch/method", 2), ("verif/raises", 3), ("notifications/initialized", None), ("verif/reenter", 4)]:
                 out.append({"ops": [I, C, ["T", jump], ["R", 0, me, mid], ["G", 0], ["N"], ["U", 1], ["T", jump], ["I", 1, {"client": {}}, 5],
                                     ["R", 0, me, mid], ["N"], ["X", 3600], ["N"], ["L", "none"]]})
+        # directed: typed / unified / parsed envelopes of every message kind, crossed with activity and expiry: the session a
+        # message (request or notification) was just received on must survive a cleanup with a limit longer than that
+        for env in ("legacy", "typed", "parse"):
+            for me, mid in R_METHODS:
+                if me is None and env == "parse":
+                    continue
+                out.append({"ops": [C, C, ["T", 5], ["R", 0, me, mid, env], ["G", 0], ["T", 5], ["X", 7], ["N"], ["G", 0], ["G", 1],
+                                    ["I", 0, {"client": {"name": "e"}, "version": "2025-06-18"}, 3, env], ["T", 5], ["X", 7], ["N"]]})
+        # directed: the process-wide random generator is re-seeded (by a tool, a handler, the host) between operations that
+        # draw session ids: ids stay unique, every successful initialize still creates its own session
+        for k in (0, 1, 42):
+            sp = {"client": {"name": "r"}, "version": "2025-06-18"}
+            out.append({"ops": [["S", k], ["I", None, sp, 1], ["S", k], ["I", None, sp, 2], ["G", 0], ["G", 1], ["N"],
+                                ["S", k], C, ["S", k], C, ["N"], ["S", k], ["I", 0, sp, 3], ["N"], ["L", "none"]]})
+            out.append({"ops": [["S", k], C, ["S", k], ["B", 5, {"name": "b"}, "2025-06-18"], ["S", k], C, ["N"], ["G", 0]]})
         # directed: growth x clock — stores of N sessions around every power of two and round number, one of them idle for
         # longer than an hour while the caller's own limit is longer (or none); then one more create / initialize, and
         # the old session must still be there: nothing but delete / cleanup / clear removes a session
@@ -393,7 +415,10 @@ class Histories(Suite):
     def kind(self, case, o):
         n = len(case["ops"])
         codes = {op[0] for op in case["ops"]}
-        tag = "+".join(sorted(codes & {"I", "R", "X", "L"})) or "basic"
+        tag = "+".join(sorted(codes & {"I", "R", "X", "L", "S"})) or "basic"
+        envs = {op[4] for op in case["ops"] if op[0] in ("R", "I") and len(op) > 4}
+        if envs - {"legacy"}:
+            tag += "+" + ",".join(sorted(envs - {"legacy"}))
         if "B" in codes:
             tag += "+bulk%d" % max(op[1] for op in case["ops"] if op[0] == "B")
         answers = {st.get("answer") for op, st in zip(case["ops"], o.get("steps", [])) if op[0] == "R" and op[1] is not None}
